@@ -46,6 +46,25 @@ func main() {
 		for _, v := range r.Violations {
 			fmt.Println("VIOL", clip(v.String(), 4000))
 		}
+	case "scn":
+		devScenarios(os.Args[2:])
+	case "c28item":
+		// sim c28item <item> <engine> <index> <mode>: one faulted execution of a C28 corpus item, with its callback trace
+		for _, it := range corpus() {
+			if it.Name != os.Args[2] {
+				continue
+			}
+			var idx int
+			fmt.Sscanf(os.Args[4], "%d", &idx)
+			_, t := it.execItem(it.baseWorld(), os.Args[3], []FaultSpec{{Site: "*", Nth: idx, Mode: os.Args[5]}})
+			for i, c := range t.Trace {
+				fmt.Printf("%3d %s\n", i, clip(c.String(), 160))
+			}
+			fmt.Println("class", t.Class, t.ErrType, "fired", t.Fired, "result", clip(t.Result, 600))
+			if t.Err != nil {
+				fmt.Println(clip(t.Err.Error(), 1500))
+			}
+		}
 	case "c44gen":
 		devC44Gen(os.Args[2:])
 	case "c44zoo":
